@@ -127,6 +127,13 @@ def case_run(cid, directed, assort, init, K, lt, recs, L, wt, r, maxit, nconv, s
     return " ".join(t)
 
 
+def case_runshared(cid, directed, assort, init, K, recs, L, r1, r2, maxit, nconv, seed, aff):
+    """one generator object handed to two successive calls (r1 realizations, then r2); size_t labels and weights"""
+    t = [cid, "runshared", str(int(directed)), str(int(assort)), init, str(K), "u"] + recs_tokens(recs, L, "u")
+    t += [str(r1), str(r2), str(maxit), str(nconv), str(seed)] + flist(aff)
+    return " ".join(t)
+
+
 def case_run2(cid, directed, assort, init, r, maxit, nconv, parts):
     """one Solver object, two runs; parts = [(K, recs, L, seed, aff)] * 2 (size_t labels and weights)"""
     t = [cid, "run2", str(int(directed)), str(int(assort)), init, str(r), str(maxit), str(nconv)]
